@@ -487,7 +487,7 @@ func (c *Ctx) checkSegments(r *Report, val *ssa.Function, tagP *ssa.Parameter) {
 }
 
 func (c *Ctx) checkTagRegistry(r *Report, reg, val *ssa.Function) {
-	g := c.logGlobal("tagRegistry")
+	g := c.names().TagRegistry
 	if g == nil {
 		// find by type: package-level map[string]*Tag
 		for _, m := range c.LogS.Members {
@@ -557,7 +557,7 @@ func (c *Ctx) checkTagRegistry(r *Report, reg, val *ssa.Function) {
 		}
 		p := c.prov(gd.Cond, &Frame{Fn: reg}).eff()
 		switch {
-		case p.Kind == "path" && strings.HasPrefix(p.Name, "global:global.init") && !gd.Polarity:
+		case p.Kind == "path" && p.Name == c.names().InitFlag && !gd.Polarity:
 			haveInit = true
 		case p.Kind == "call" && gd.Cond.(ssa.Value) != nil:
 			if call, ok := gd.Cond.(*ssa.Call); ok && call.Common().StaticCallee() == val && gd.Polarity {
